@@ -2,5 +2,6 @@ SPECIFICATION Spec
 CONSTANTS
   MaxPts = 6
   QPerData = 5
+  Focus = "none"
 INVARIANTS RowsOrdered SeriesOrdered LimitRespected SLimitRespected NoEmptySeries CountConservation FillNoneIsSubset DescIsReverse
 CHECK_DEADLOCK FALSE
